@@ -164,7 +164,7 @@ def check_C05(tier):
         closed_cases=THOROUGH_CLOSED if tier == "thorough" else QUICK_CLOSED,
         real_cases=REAL + extras, gen=40 if tier == "thorough" else 10, nvar=8 if tier == "thorough" else 4,
         gen_kw=dict(allow_leaf=True),
-        weak_cases=[("Z17", dict(n=4), "SpawnAllThenWait", "deadlock"), ("Z9", dict(n=1), "SinkOnlyIfDriver+NoWaitAll", "C05_NoEarly"), ("Z9", dict(n=3), "SinkOnlyIfDriver", "deadlock"),
+        weak_cases=[("Z17", dict(n=4), "SpawnAllThenWait", "deadlock"), ("Z9", dict(n=1), "SinkOnlyIfDriver+NoWaitAll", "C05_NoEarly"), ("Z9", dict(n=2), "SinkOnlyIfDriver", "deadlock"),
                     ("Z1", dict(n=2), "CloseBeforeDrain", "C04/C05"), ("Z5c", dict(n=2, m=0), "NoWaitAll", "C05_NoEarly")] +
                    ([("Z5b", dict(n=4, m=1), "NoDrain", "deadlock")] if tier == "thorough" else []),
         rule="as C04; additionally TLC deadlock check and <>(returned or failed) under weak fairness on the small instances; "
